@@ -1,9 +1,351 @@
 /-
-Helper lemmas for C13, class level and hierarchy.
+Helper lemmas for C13: class store lookups, hierarchy, congruence of the traversal functions under
+recasing (`lower`), class-level membership.
 -/
 import Proofs.Lemmas.Assoc
 
 namespace Pywbem.Model.Assoc
 open Pywbem.Proto
+
+/-! ### class store -/
+
+theorem classExists_iff {cs : List Cls} {n : Name} :
+    classExists cs n = true ↔ ∃ c ∈ cs, ieq c.name n = true := by simp [classExists]
+
+theorem classExists_of_mem {cs : List Cls} {c : Cls} (h : c ∈ cs) : classExists cs c.name = true :=
+  classExists_iff.mpr ⟨c, h, ieq_refl _⟩
+
+theorem findClass_of_exists {cs : List Cls} {n : Name} (h : classExists cs n = true) :
+    ∃ c, findClass cs n = some c ∧ c ∈ cs ∧ ieq c.name n = true := by
+  unfold findClass
+  cases hf : cs.find? (fun c => ieq c.name n) with
+  | none =>
+    rw [List.find?_eq_none] at hf
+    obtain ⟨c, hc, hi⟩ := classExists_iff.mp h
+    have := hf c hc
+    simp [hi] at this
+  | some c =>
+    have h1 : ieq c.name n = true := by have := List.find?_some hf; exact this
+    exact ⟨c, rfl, List.mem_of_find?_eq_some hf, h1⟩
+
+theorem classExists_congr {cs : List Cls} {a b : Name} (h : lower a = lower b) :
+    classExists cs a = classExists cs b := by
+  simp [classExists, ieq, h]
+
+theorem findClass_congr {cs : List Cls} {a b : Name} (h : lower a = lower b) :
+    findClass cs a = findClass cs b := by
+  simp [findClass, ieq, h]
+
+/-! ### hierarchy: congruence under recasing -/
+
+theorem children_congr {cs : List Cls} {a b : Name} (h : lower a = lower b) :
+    children cs a = children cs b := by
+  simp [children, ieq, h]
+
+theorem subNamesDeep_congr {cs : List Cls} {a b : Name} (h : lower a = lower b) :
+    ∀ fuel, subNamesDeep fuel cs a = subNamesDeep fuel cs b
+  | 0 => rfl
+  | fuel + 1 => by simp [subNamesDeep, children_congr h]
+
+theorem superChain_congr {cs : List Cls} {a b : Name} (h : lower a = lower b) :
+    ∀ fuel, superChain fuel cs a = superChain fuel cs b
+  | 0 => rfl
+  | fuel + 1 => by simp [superChain, findClass_congr h]
+
+theorem superNames_congr {cs : List Cls} {a b : Name} (h : lower a = lower b) :
+    superNames cs a = superNames cs b := by
+  simp [superNames, superChain_congr h]
+
+/-- two optional filter values that the code cannot tell apart: both inactive, or both active with
+    the same lower-cased name -/
+def optIeq (a b : Option Name) : Prop := lcOpt a = lcOpt b
+
+theorem lcOpt_eq_none_iff {a : Option Name} : lcOpt a = none ↔ truthy a = false := by
+  cases a with
+  | none => simp [lcOpt, truthy]
+  | some n => by_cases h : n.isEmpty = true <;> simp [lcOpt, truthy, h]
+
+theorem optIeq_cases {a b : Option Name} (h : optIeq a b) :
+    (truthy a = false ∧ truthy b = false) ∨
+    (∃ n m, a = some n ∧ b = some m ∧ n.isEmpty = false ∧ m.isEmpty = false ∧ lower n = lower m) := by
+  unfold optIeq at h
+  cases ha : lcOpt a with
+  | none =>
+    rw [ha] at h
+    exact Or.inl ⟨lcOpt_eq_none_iff.mp ha, lcOpt_eq_none_iff.mp h.symm⟩
+  | some r =>
+    rw [ha] at h
+    right
+    cases a with
+    | none => simp [lcOpt] at ha
+    | some n =>
+      cases b with
+      | none => simp [lcOpt] at h
+      | some m =>
+        by_cases hn : n.isEmpty = true
+        · simp [lcOpt, hn] at ha
+        · by_cases hm : m.isEmpty = true
+          · simp [lcOpt, hm] at h
+          · simp [lcOpt, hn] at ha
+            simp [lcOpt, hm] at h
+            exact ⟨n, m, rfl, rfl, by simpa using hn, by simpa using hm, by rw [ha, h]⟩
+
+theorem truthy_congr {a b : Option Name} (h : optIeq a b) : truthy a = truthy b := by
+  rcases optIeq_cases h with ⟨h1, h2⟩ | ⟨n, m, rfl, rfl, hn, hm, _⟩
+  · rw [h1, h2]
+  · simp [truthy, hn, hm]
+
+theorem subclassesLc_congr {cs : List Cls} {a b : Option Name} (h : optIeq a b) :
+    subclassesLc cs a = subclassesLc cs b := by
+  rcases optIeq_cases h with ⟨h1, h2⟩ | ⟨n, m, rfl, rfl, hn, hm, hl⟩
+  · rw [subclassesLc_of_not_truthy h1, subclassesLc_of_not_truthy h2]
+  · simp [subclassesLc, hn, hm, hl, subNamesDeep_congr hl]
+
+theorem filterClassOk_congr {cs : List Cls} {a b : Option Name} (h : optIeq a b) :
+    filterClassOk cs a = filterClassOk cs b := by
+  rcases optIeq_cases h with ⟨h1, h2⟩ | ⟨n, m, rfl, rfl, hn, hm, hl⟩
+  · rw [filterClassOk_of_not_truthy h1, filterClassOk_of_not_truthy h2]
+  · simp [filterClassOk, hn, hm, classExists_congr hl]
+
+theorem classAdmits_congr {cs : List Cls} {a b : Option Name} (h : optIeq a b) {c c' : Name}
+    (hc : lower c = lower c') : classAdmits cs a c = classAdmits cs b c' := by
+  simp [classAdmits, truthy_congr h, subclassesLc_congr h, hc]
+
+theorem roleAdmits_congr {a b : Option Name} (h : optIeq a b) (p : Name) :
+    roleAdmits a p = roleAdmits b p := by
+  unfold optIeq at h
+  simp [roleAdmits, h]
+
+/-! ### instance level: congruence -/
+
+theorem refPropHit_congr {cs : List Cls} {x x' : Path} {rc rc' role role' : Option Name}
+    (hx : x.eqv x' = true) (h1 : optIeq rc rc') (h2 : optIeq role role') (ic : Name) (p : IProp) :
+    refPropHit cs x rc role ic p = refPropHit cs x' rc' role' ic p := by
+  simp only [refPropHit, eqv_congr_right hx, classAdmits_congr h1 rfl, roleAdmits_congr h2]
+
+theorem otherEnd_congr {cs : List Cls} {x x' : Path} {rc rc' rr rr' : Option Name}
+    (hx : x.eqv x' = true) (h1 : optIeq rc rc') (h2 : optIeq rr rr') (p : IProp) :
+    otherEnd cs x rc rr p = otherEnd cs x' rc' rr' p := by
+  simp only [otherEnd, eqv_congr_right hx, classAdmits_congr h1 rfl, roleAdmits_congr h2]
+
+theorem refInsts_congr {S : NsStore} {x x' : Path} {rc rc' role role' : Option Name}
+    (hx : x.eqv x' = true) (h1 : optIeq rc rc') (h2 : optIeq role role') :
+    refInsts S x rc role = refInsts S x' rc' role' := by
+  unfold refInsts
+  congr 1
+  funext a
+  congr 1
+  funext p
+  exact refPropHit_congr hx h1 h2 a.cls p
+
+theorem refInstsE_congr {S : NsStore} {x x' : Path} {rc rc' role role' : Option Name}
+    (hx : x.eqv x' = true) (h1 : optIeq rc rc') (h2 : optIeq role role') :
+    refInstsE S x rc role = refInstsE S x' rc' role' := by
+  unfold refInstsE
+  rw [classExists_congr (ieq_iff.mp (eqv_iff.mp hx).2.2.1), filterClassOk_congr h1, refInsts_congr hx h1 h2]
+
+/-! ### class level -/
+
+theorem refClasses_ok {S : NsStore} {cn : Name} {rc role : Option Name} {l : List Cls}
+    (h : refClasses S cn rc role = .ok l) :
+    classExists S.classes cn = true ∧ filterClassOk S.classes rc = true ∧
+    ∃ sup, superNames S.classes cn = .ok sup ∧
+      l = S.classes.filter (fun c => c.isAssoc && c.props.any (fun p => p.isRef &&
+            refPropMatches p ((sup ++ [cn]).map lower) (lower c.name) (subclassesLc S.classes rc) (lcOpt role))) := by
+  unfold refClasses at h
+  by_cases h1 : classExists S.classes cn = true
+  · by_cases h2 : filterClassOk S.classes rc = true
+    · simp only [h1, h2, Bool.not_true, Bool.false_eq_true, if_false] at h
+      cases hs : superNames S.classes cn with
+      | error e => simp [hs] at h
+      | ok sup => simp only [hs] at h; exact ⟨h1, h2, sup, rfl, (Except.ok.inj h).symm⟩
+    · simp [h1, h2] at h
+  · simp [h1] at h
+
+theorem refClasses_eq_ok {S : NsStore} {cn : Name} {rc role : Option Name} {sup : List Name}
+    (h1 : classExists S.classes cn = true) (h2 : filterClassOk S.classes rc = true)
+    (hs : superNames S.classes cn = .ok sup) :
+    refClasses S cn rc role = .ok (S.classes.filter (fun c => c.isAssoc && c.props.any (fun p => p.isRef &&
+            refPropMatches p ((sup ++ [cn]).map lower) (lower c.name) (subclassesLc S.classes rc) (lcOpt role)))) := by
+  simp [refClasses, h1, h2, hs]
+
+theorem refClasses_mem {S : NsStore} {cn : Name} {rc role : Option Name} {l : List Cls}
+    (h : refClasses S cn rc role = .ok l) {c : Cls} (hc : c ∈ l) : c ∈ S.classes := by
+  obtain ⟨_, _, sup, _, hl⟩ := refClasses_ok h
+  rw [hl] at hc
+  exact (List.mem_filter.mp hc).1
+
+theorem refClasses_congr {S : NsStore} {cn cn' : Name} {rc rc' role role' : Option Name}
+    (hc : lower cn = lower cn') (h1 : optIeq rc rc') (h2 : optIeq role role') :
+    refClasses S cn rc role = refClasses S cn' rc' role' := by
+  unfold refClasses
+  unfold optIeq at h2
+  rw [classExists_congr hc, filterClassOk_congr h1, superNames_congr hc, subclassesLc_congr h1, h2]
+  simp [hc]
+
+theorem refPropMatches_iff {p : CProp} {targets : List Name} {rcn : Name} {rcs : List Name}
+    {role : Option Name} :
+    refPropMatches p targets rcn rcs role = true ↔
+      lower p.refCls ∈ targets ∧ (rcs = [] ∨ rcn ∈ rcs) ∧ (∀ r, role = some r → lower p.name = r) := by
+  unfold refPropMatches
+  by_cases ht : lower p.refCls ∈ targets
+  · by_cases hr : rcs = [] ∨ rcn ∈ rcs
+    · cases role with
+      | none => rcases hr with hr | hr <;> simp [ht, hr]
+      | some r => rcases hr with hr | hr <;> simp [ht, hr]
+    · have h1 : rcs ≠ [] := fun h => hr (Or.inl h)
+      have h2 : rcn ∉ rcs := fun h => hr (Or.inr h)
+      simp [ht, h1, h2]
+  · simp [ht]
+
+theorem refPropMatches_mono {p : CProp} {targets : List Name} {rcn : Name} {rcs rcs' : List Name}
+    {role role' : Option Name} (h1 : rcs = [] ∨ rcs = rcs') (h2 : role = none ∨ role = role')
+    (h : refPropMatches p targets rcn rcs' role' = true) : refPropMatches p targets rcn rcs role = true := by
+  rw [refPropMatches_iff] at *
+  obtain ⟨ht, hr, hro⟩ := h
+  refine ⟨ht, ?_, ?_⟩
+  · rcases h1 with h1 | h1
+    · exact Or.inl h1
+    · rw [h1]; exact hr
+  · rcases h2 with h2 | h2
+    · intro r hr'; rw [h2] at hr'; cases hr'
+    · rw [h2]; exact hro
+
+theorem assocPropMatches_iff {p : CProp} {rcn : Name} {acs rcs : List Name} {rr : Option Name} :
+    assocPropMatches p rcn acs rcs rr = true ↔
+      (acs = [] ∨ lower rcn ∈ acs) ∧ (rcs = [] ∨ lower p.refCls ∈ rcs) ∧
+        (∀ r, rr = some r → lower p.name = r) := by
+  unfold assocPropMatches
+  by_cases ha : acs = [] ∨ lower rcn ∈ acs
+  · by_cases hr : rcs = [] ∨ lower p.refCls ∈ rcs
+    · cases rr with
+      | none => rcases ha with ha | ha <;> rcases hr with hr | hr <;> simp [ha, hr]
+      | some r => rcases ha with ha | ha <;> rcases hr with hr | hr <;> simp [ha, hr]
+    · have h1 : rcs ≠ [] := fun h => hr (Or.inl h)
+      have h2 : lower p.refCls ∉ rcs := fun h => hr (Or.inr h)
+      rcases ha with ha | ha <;> simp [ha, h1, h2]
+  · have h1 : acs ≠ [] := fun h => ha (Or.inl h)
+    have h2 : lower rcn ∉ acs := fun h => ha (Or.inr h)
+    simp [h1, h2]
+
+theorem assocPropMatches_mono {p : CProp} {rcn : Name} {acs acs' rcs rcs' : List Name}
+    {rr rr' : Option Name} (h0 : acs = [] ∨ acs = acs') (h1 : rcs = [] ∨ rcs = rcs') (h2 : rr = none ∨ rr = rr')
+    (h : assocPropMatches p rcn acs' rcs' rr' = true) : assocPropMatches p rcn acs rcs rr = true := by
+  rw [assocPropMatches_iff] at *
+  obtain ⟨ha, hr, hro⟩ := h
+  refine ⟨?_, ?_, ?_⟩
+  · rcases h0 with h0 | h0
+    · exact Or.inl h0
+    · rw [h0]; exact ha
+  · rcases h1 with h1 | h1
+    · exact Or.inl h1
+    · rw [h1]; exact hr
+  · rcases h2 with h2 | h2
+    · intro r hr'; rw [h2] at hr'; cases hr'
+    · rw [h2]; exact hro
+
+theorem assocClassNames_ok {S : NsStore} {cn : Name} {f : AFilter} {l : List Name}
+    (h : assocClassNames S cn f = .ok l) :
+    filterClassOk S.classes f.assocClass = true ∧ filterClassOk S.classes f.resultClass = true ∧
+    ∃ rl, refClasses S cn f.assocClass f.role = .ok rl ∧
+      l = rl.flatMap (fun c => assocClassEnds c cn (subclassesLc S.classes f.assocClass)
+            (subclassesLc S.classes f.resultClass) (lcOpt f.resultRole)) := by
+  unfold assocClassNames at h
+  by_cases h1 : filterClassOk S.classes f.assocClass = true
+  · by_cases h2 : filterClassOk S.classes f.resultClass = true
+    · simp only [h1, h2, Bool.not_true, Bool.false_eq_true, if_false] at h
+      cases hr : refClasses S cn f.assocClass f.role with
+      | error e => simp [hr] at h
+      | ok rl => simp [hr] at h; exact ⟨h1, h2, rl, rfl, h.symm⟩
+    · simp [h1, h2] at h
+  · simp [h1] at h
+
+theorem assocClassNames_eq_ok {S : NsStore} {cn : Name} {f : AFilter} {rl : List Cls}
+    (h1 : filterClassOk S.classes f.assocClass = true) (h2 : filterClassOk S.classes f.resultClass = true)
+    (hrl : refClasses S cn f.assocClass f.role = .ok rl) :
+    assocClassNames S cn f = .ok (rl.flatMap (fun c => assocClassEnds c cn (subclassesLc S.classes f.assocClass)
+            (subclassesLc S.classes f.resultClass) (lcOpt f.resultRole))) := by
+  simp [assocClassNames, h1, h2, hrl]
+
+theorem mem_assocClassEnds {c : Cls} {cn : Name} {acs rcs : List Name} {rr : Option Name} {n : Name} :
+    n ∈ assocClassEnds c cn acs rcs rr ↔
+      ∃ p ∈ c.props, p.refCls = n ∧ p.isRef = true ∧ assocPropMatches p c.name acs rcs rr = true ∧
+        ¬ (lower p.refCls = lower cn ∧ singleUse c (lower p.refCls) = true) := by
+  simp only [assocClassEnds, List.mem_map, List.mem_filter]
+  constructor
+  · rintro ⟨p, ⟨hp, hcond⟩, rfl⟩
+    simp at hcond
+    refine ⟨p, hp, rfl, hcond.1.1, hcond.1.2, ?_⟩
+    rintro ⟨h1, h2⟩
+    rcases hcond.2 with h | h
+    · exact h h1
+    · simp [h2] at h
+  · rintro ⟨p, hp, rfl, h1, h2, h3⟩
+    refine ⟨p, ⟨hp, ?_⟩, rfl⟩
+    simp [h1, h2]
+    by_cases hl : lower p.refCls = lower cn
+    · by_cases hs : singleUse c (lower p.refCls) = true
+      · exact absurd ⟨hl, hs⟩ h3
+      · exact Or.inr (by simpa using hs)
+    · exact Or.inl hl
+
+theorem assocClassEnds_congr {c : Cls} {cn cn' : Name} (hc : lower cn = lower cn') (acs rcs : List Name)
+    (rr : Option Name) : assocClassEnds c cn acs rcs rr = assocClassEnds c cn' acs rcs rr := by
+  simp [assocClassEnds, hc]
+
+/-! ### hierarchy: soundness of the computed subclass lists -/
+
+/-- `c` is stored as a direct subclass of (a class named like) `a` -/
+def IsChild (c : Cls) (a : Name) : Prop := ∃ s, c.super = some s ∧ s.isEmpty = false ∧ ieq s a = true
+
+/-- `d` names a stored (direct or indirect) subclass of `a` -/
+inductive Desc (cs : List Cls) : Name → Name → Prop where
+  | child {c : Cls} {a : Name} : c ∈ cs → IsChild c a → Desc cs c.name a
+  | trans {c : Cls} {m a : Name} : Desc cs m a → c ∈ cs → IsChild c m → Desc cs c.name a
+
+theorem mem_children {cs : List Cls} {a x : Name} :
+    x ∈ children cs a ↔ ∃ c ∈ cs, c.name = x ∧ IsChild c a := by
+  simp only [children, List.mem_map, List.mem_filter, IsChild]
+  constructor
+  · rintro ⟨c, ⟨hc, hcond⟩, rfl⟩
+    cases hs : c.super with
+    | none => simp [hs] at hcond
+    | some s => simp [hs] at hcond; exact ⟨c, hc, rfl, s, hs, by simpa using hcond.1, hcond.2⟩
+  · rintro ⟨c, hc, rfl, s, hs, hne, hi⟩
+    exact ⟨c, ⟨hc, by simp [hs, hne, hi]⟩, rfl⟩
+
+theorem desc_of_child_desc {cs : List Cls} {d : Cls} {a x : Name} (hd : d ∈ cs) (hda : IsChild d a)
+    (h : Desc cs x d.name) : Desc cs x a := by
+  generalize hm : d.name = m at h
+  induction h with
+  | child hc hch => subst hm; exact Desc.trans (Desc.child hd hda) hc hch
+  | trans _ hc hch ih => exact Desc.trans (ih hm) hc hch
+
+theorem subNamesDeep_sound {cs : List Cls} :
+    ∀ {fuel : Nat} {a x : Name}, x ∈ subNamesDeep fuel cs a → Desc cs x a
+  | 0, _, _, h => by simp [subNamesDeep] at h
+  | fuel + 1, a, x, h => by
+    simp only [subNamesDeep, List.mem_append, List.mem_flatten, List.mem_map] at h
+    rcases h with h | ⟨l, ⟨m, hm, rfl⟩, hx⟩
+    · obtain ⟨c, hc, rfl, hch⟩ := mem_children.mp h
+      exact Desc.child hc hch
+    · obtain ⟨d, hd, rfl, hda⟩ := mem_children.mp hm
+      exact desc_of_child_desc hd hda (subNamesDeep_sound hx)
+
+/-- descendants reachable by a chain of at most `n` superclass links -/
+inductive DescN (cs : List Cls) : Nat → Name → Name → Prop where
+  | child {c : Cls} {a : Name} {n : Nat} : c ∈ cs → IsChild c a → DescN cs (n + 1) c.name a
+  | step {c d : Cls} {a : Name} {n : Nat} : d ∈ cs → IsChild d a → DescN cs n c.name d.name → c ∈ cs →
+      DescN cs (n + 1) c.name a
+
+theorem subNamesDeep_complete {cs : List Cls} :
+    ∀ {n : Nat} {a x : Name}, DescN cs n x a → x ∈ subNamesDeep n cs a
+  | 0, _, _, h => by cases h
+  | n + 1, a, x, h => by
+    simp only [subNamesDeep, List.mem_append, List.mem_flatten, List.mem_map]
+    cases h with
+    | child hc hch => exact Or.inl (mem_children.mpr ⟨_, hc, rfl, hch⟩)
+    | step hd hda hrest _ =>
+      exact Or.inr ⟨_, ⟨_, mem_children.mpr ⟨_, hd, rfl, hda⟩, rfl⟩, subNamesDeep_complete hrest⟩
 
 end Pywbem.Model.Assoc
